@@ -237,7 +237,7 @@ func runServer(c *fw.Ctx) {
 	hw := startHeapWatch(20 * time.Millisecond)
 	conns := 0
 
-	rounds := c.Pick(1, 8)
+	rounds := c.Pick(1, 4)
 	if race {
 		rounds = 1
 	}
@@ -424,7 +424,7 @@ func runServer(c *fw.Ctx) {
 	// ---- after the attack -----------------------------------------------------------
 	c.Case("server-after", map[string]interface{}{"connections_made": conns}, func() {
 		high := hw.Stop()
-		c.Extra("server_heap_high_water_bytes", float64(high))
+		c.Extra("server_heap_high_water", fmt.Sprintf("batch %d: %d bytes (baseline %d)", c.Batch, high, hw.base))
 		// one connection at a time: at most one 16 MiB frame (plus its decompressed
 		// form) is in flight; generous slack for garbage not yet collected
 		if high > hw.base+768<<20 {
